@@ -233,15 +233,56 @@ Definition copy_total_ok_stmt : Prop :=
     (Z.of_N next0 + Z.of_nat (length (universe src cs)) + Z.of_nat (length cs) <= Gen_C11.maxXRefSize)%Z ->
     exists results st, run_calls src (fuel_bound src cs) cs (init next0) = Ok (results, st).
 
-(* copy_iso_paths: for call sequences without Redirect and well-formed
-   dictionaries (no key twice), the model copier's output satisfies what the
-   checker checks, hence (iso_paths, iso_shape, iso_sharing) source and target
-   agree along every access path. *)
+(* ---- access paths in the presence of Redirect -------------------------------- *)
+
+(* local_iso with exemptions: nothing is claimed about the references in R
+   (redirected by the caller), and the target of a reference whose alias chain
+   ends in R is the caller's replacement *)
+Record local_iso_R (R : list ref) (src : source) (tgt : target) (tr : tr_map) : Prop := {
+  lr_entry : forall s t, In (s, t) tr -> ~ In s R ->
+      lookup (key src s) tr = Some t /\
+      (In (key src s) R \/ related src tr (val src (key src s)) (tget tgt t));
+  lr_inj : forall s1 s2 t, In (s1, t) tr -> In (s2, t) tr -> ~ In s1 R -> ~ In s2 R -> key src s1 = key src s2;
+  lr_wf_src : forall r o, In (r, Good o) src -> wf_obj o = true;
+  lr_wf_tgt : forall t o, In (t, o) tgt -> wf_obj o = true
+}.
+
+(* the path never follows a redirected reference, or one whose chain ends in a redirected one *)
+Fixpoint walk_clear (R : list ref) (src : source) (o : obj) (p : list sel) : Prop :=
+  match p with
+  | [] => True
+  | s :: p' =>
+    (forall r, o = ORef r -> ~ In r R /\ ~ In (key src r) R) /\
+    walk_clear R src (step (inline_dict src) (deref_src src o) s) p'
+  end.
+
+Definition iso_paths_R_stmt : Prop :=
+  forall R src tgt tr a b,
+    local_iso_R R src tgt tr -> root_ok src tr (a, b) ->
+    forall p, walk_clear R src a p -> related src tr (walk_src src a p) (walk_tgt tgt b p).
+
+Definition iso_shape_R_stmt : Prop :=
+  forall R src tgt tr a b,
+    local_iso_R R src tgt tr -> root_ok src tr (a, b) ->
+    forall p, walk_clear R src a (p ++ [SIdx 0]) ->
+      shape_src src (deref_src src (walk_src src a p)) = shape_of (deref_tgt tgt (walk_tgt tgt b p)).
+
+Definition call_wf (c : call) : Prop :=
+  wf_obj (call_obj c) = true /\ match c with CRedirect _ m => wf_obj m = true | _ => True end.
+
+Definition call_root_ok (src : source) (tr : tr_map) (c : call) (res : obj) : Prop :=
+  match c with CRedirect _ _ => True | _ => root_ok src tr (call_obj c, res) end.
+
+(* copy_iso_paths: for every call sequence with fresh Redirects (dictionaries
+   being finite maps: no key twice) the model copier's output satisfies the
+   local conditions with the redirected references exempt; hence (iso_paths_R)
+   source and target agree along every access path that does not pass through
+   an object the caller replaced. *)
 Definition copy_iso_paths_stmt : Prop :=
   forall src fuel cs next0 results st,
     run_calls src fuel cs (init next0) = Ok (results, st) ->
-    redirected cs = [] ->
+    redirects_fresh src fuel cs (init next0) ->
     (forall r o, In (r, Good o) src -> wf_obj o = true) ->
-    Forall (fun c => wf_obj (call_obj c) = true) cs ->
-    local_iso src (puts st) (trans st) /\
-    Forall2 (fun c res => root_ok src (trans st) (call_obj c, res)) cs results.
+    Forall call_wf cs ->
+    local_iso_R (redirected cs) src (puts st) (trans st) /\
+    Forall2 (call_root_ok src (trans st)) cs results.
